@@ -116,6 +116,26 @@ def check_invariants(w, violations, i, after):
             if m.parent is not p:
                 violations.append(_v("parent_is_project", after=after, detail={"op": i, "project": pi, "pos": j}))
                 break
+        # the same invariant inside every embedded project (a MetaModule's project is a project)
+        stack = [m for m in mods if m is not None and type(m).__name__ == "MetaModule"]
+        depth = 0
+        while stack and depth < 50:
+            depth += 1
+            mm = stack.pop()
+            ep = mm.project
+            if ep is None:
+                continue
+            for j, m in enumerate(ep.modules):
+                if m is None:
+                    continue
+                if m.index != j:
+                    violations.append(_v("index_equals_position", after=after, where="embedded", detail={"op": i, "project": pi, "pos": j, "index": m.index}))
+                    break
+                if m.parent is not ep:
+                    violations.append(_v("parent_is_project", after=after, where="embedded", detail={"op": i, "project": pi, "pos": j}))
+                    break
+                if type(m).__name__ == "MetaModule":
+                    stack.append(m)
         model = w.slots[pi]
         actual = list(mods)
         ok = len(actual) == len(model) and all((a is None and b is None) or (b is not None and a is w.mods.get(b)) for a, b in zip(actual, model))
@@ -392,6 +412,24 @@ def execute(case):
                     w.mowner[key] = pi
                     model_attach(w, pi, key)
                 probes["project_with_more_than_256_positions"] = probes.get("project_with_more_than_256_positions", 0) + (1 if len(p.modules) > 256 else 0)
+            elif k == "twin_meta":
+                # a MetaModule with a few embedded modules, and a clone of it, in the same project
+                from rv.modules.metamodule import MetaModule
+
+                mm = p.new_module(MetaModule)
+                key = w.key()
+                w.mods[key] = mm
+                w.mowner[key] = pi
+                model_attach(w, pi, key)
+                for j in range(1 + op.get("n", 1) % 3):
+                    mm.project.new_module(builder.SIMPLE_TYPES[(op.get("t", 0) + j * 5) % len(builder.SIMPLE_TYPES)])
+                c = mm.clone()
+                p.attach_module(c)
+                key = w.key()
+                w.mods[key] = c
+                w.mowner[key] = pi
+                model_attach(w, pi, key)
+                probes["twin_metamodules"] = probes.get("twin_metamodules", 0) + 1
             elif k == "wrap":
                 # the project becomes the embedded project of a MetaModule (with some user
                 # controller mappings); it is still a project and the same rules apply to it
@@ -506,7 +544,7 @@ def execute(case):
 def generate(seed, i, tier="quick"):
     r = seeds.rng(seed, "c14hist", i)
     ops = [{"k": "setup", "n": r.randrange(2), "files": [r.choice([None, None, r.randrange(6)]) for _ in range(3)]}]
-    kinds = ["wrap", "new", "new", "new_module", "new_module", "attach", "attach", "attach", "iadd", "iadd_list", "attach_pattern", "attach_pattern", "note_mod", "note_mod", "save_load", "newpat"]
+    kinds = ["wrap", "twin_meta", "new", "new", "new_module", "new_module", "attach", "attach", "attach", "iadd", "iadd_list", "attach_pattern", "attach_pattern", "note_mod", "note_mod", "save_load", "newpat"]
     for _ in range(r.randint(5, 40)):
         k = r.choice(kinds)
         op = {"k": k, "p": r.randrange(3)}
@@ -529,6 +567,8 @@ def generate(seed, i, tier="quick"):
             op["gaps"] = r.getrandbits(30) if r.random() < 0.6 else 0
         elif k == "wrap":
             op["v"] = r.getrandbits(50)
+        elif k == "twin_meta":
+            op.update(n=r.randrange(3), t=r.randrange(1000))
         ops.append(op)
     if r.random() < 0.03:
         # swarm: sizes - a few runs grow one project past 256 positions
